@@ -128,7 +128,11 @@ def oracle(run, cfg, idnt, calls, p0, fixed):
                 or w.max() > 1:
             fail("weights are not the linear ramp", "C04_weights_linear")
     chi = float(np.sum(rec["res"][rng_] ** 2))
-    if not math.isclose(chi, float(rec["chi"]), rel_tol=1e-9, abs_tol=1e-300):
+    # lmfit floors chisqr at 1e-250 * ndata ("to avoid zero"): an exact fit of
+    # noise-free data reports that floor, not 0
+    floor = 1e-250 * max(int(rng_.sum()), 1)
+    if not math.isclose(chi, float(rec["chi"]), rel_tol=1e-9,
+                        abs_tol=max(1e-300, 1.0000001 * floor)):
         fail(f"chi_sqr {rec['chi']} is not the sum of squared residuals "
              f"{chi}", "C04 (chi-square)")
     if abs(float(pf["contact_point"].value) - cp_scaled / k) > 0:
